@@ -45,6 +45,13 @@ Proof. exact helmert_rev_gram. Qed.
 Theorem C11_helmert_forward_orthogonal_columns : forall n c1 c2, (S c1 < n)%nat -> (S c2 < n)%nat -> (c1 <= c2)%nat ->
   sumZ (fun r => helmert_fwd n r c1 * helmert_fwd n r c2) n = if Nat.eqb c1 c2 then zn (n - c1 - 1) * zn (n - c1) else 0.
 Proof. exact helmert_fwd_gram. Qed.
+(* ... hence the explicit inverse: with X = [1|C] and the diagonal D of squared column norms, X^T X = D, i.e. (D^-1 X^T) X = I *)
+Theorem C11_helmert_coefficients_are_inverse : forall n i j, (i < n)%nat -> (j < n)%nat ->
+  sumZ (fun r => with_const helmert_rev r i * with_const helmert_rev r j) n = if Nat.eqb i j then D_helmert_rev n i else 0.
+Proof. exact helmert_rev_gram_full. Qed.
+Theorem C11_helmert_forward_coefficients_are_inverse : forall n i j, (i < n)%nat -> (j < n)%nat ->
+  sumZ (fun r => with_const (helmert_fwd n) r i * with_const (helmert_fwd n) r j) n = if Nat.eqb i j then D_helmert_fwd n i else 0.
+Proof. exact helmert_fwd_gram_full. Qed.
 (* treatment fast path: the reduced encoding is the dummy matrix without the reference column *)
 Theorem C11_treatment_is_column_mask : forall b r c, treatment b r c = Zb (Nat.eqb r (if Nat.ltb c b then c else S c)).
 Proof. exact treatment_column_is_indicator. Qed.
@@ -87,6 +94,8 @@ Print Assumptions C11_diff_coefficients_are_inverse_const.
 Print Assumptions C11_diff_coefficients_are_inverse_coding.
 Print Assumptions C11_helmert_orthogonal_columns.
 Print Assumptions C11_helmert_forward_orthogonal_columns.
+Print Assumptions C11_helmert_coefficients_are_inverse.
+Print Assumptions C11_helmert_forward_coefficients_are_inverse.
 Print Assumptions C11_treatment_is_column_mask.
 Print Assumptions C11_encoding_is_row_selection.
 Print Assumptions C11_poly_columns_orthogonal.
